@@ -33,7 +33,7 @@ META = {
                   "get_id_pack are regenerated on every run and tied by reflexivity; the extracted model is compared step by step "
                   "with two real connections. obtain/deliver: only the plumbing is proved (_partial theorems, pickle uninterpreted); "
                   "that the copy is equal and independent is HARNESS-LEVEL evidence (oracle on 9 fixed + 40/600 generated picklable "
-                  "structures per direction). Three address spaces: oracle-only (6 object kinds over a real two-hop chain).",
+                  "structures and 40/600 generated tuples mixing values and references, per direction). Three address spaces: oracle-only (6 object kinds over a real two-hop chain).",
     "level_note": "Trusted: Coq kernel, pygen, extraction + driver, harness. CPython's id() is a parameter (get_id_pack: any function "
                   "with encodable id packs, the same throughout a history except for objects that are not lent); identity theorems "
                   "assume no other live object shares the id pack, which holds inside one address space but is NOT provable across "
@@ -1133,6 +1133,114 @@ def _first_mutable(o):
     return None
 
 
+def gen_mixed_tuple(r, depth):
+    """an exact tuple (nested up to `depth`) mixing plain values with by-reference items; at least one by-reference item"""
+    def item(d):
+        k = r.random()
+        if d > 0 and k < 0.3:
+            return tuple(item(d - 1) for _ in range(r.choice([0, 1, 2, 3])))
+        if k < 0.6:
+            return r.choice([None, True, 7, -300, 2**70, 2.5, "s", "\u20ac", b"\x00", (), (1, "a"), frozenset([1, 2])])
+        return gen_picklable(r, 1, True)
+    body = [item(depth) for _ in range(r.choice([1, 2, 3, 4]))]
+    deep = gen_picklable(r, 1, True)
+    for _ in range(r.randint(0, depth)):
+        deep = (r.choice([0, "k"]), deep)
+    body.insert(r.randrange(len(body) + 1), deep)
+    return tuple(body)
+
+
+def snap(o):
+    """structural snapshot (no addresses)"""
+    if isinstance(o, PThing):
+        return ("PThing", snap(o.a))
+    if isinstance(o, (list, tuple)):
+        return (type(o).__name__,) + tuple(snap(x) for x in o)
+    if isinstance(o, dict):
+        return ("dict",) + tuple(sorted(((repr(k), snap(v)) for k, v in o.items())))
+    if isinstance(o, (set, frozenset)):
+        return (type(o).__name__,) + tuple(sorted(repr(x) for x in o))
+    if isinstance(o, bytearray):
+        return ("bytearray", bytes(o))
+    return (type(o).__name__, repr(o))
+
+
+def leaves(o, path="x"):
+    """(path, item) for every item reachable through exact tuples"""
+    if type(o) is tuple:
+        for i, x in enumerate(o):
+            for y in leaves(x, "%s[%d]" % (path, i)):
+                yield y
+    else:
+        yield path, o
+
+
+def check_copy_tuple(ctx, which, seed):
+    """obtain()/deliver() of an exact tuple that travels by value but holds by-reference items"""
+    import random
+    case = {"kind": "copy-tuple", "which": which, "seed": seed}
+    orig = gen_mixed_tuple(random.Random(seed), 2)
+    ctx.case(("copy-tuple", which, seed), nontrivial=True, sample={"copy": which, "object": "tuple mixing values and references", "shape": repr(snap(orig))[:120]})
+    ctx.count("copy-tuple:" + which)
+    pr = Pair(ctx, classic_services=True)
+    try:
+        for s in (True, False):
+            pr.conn[s]._local_root.on_connect(pr.conn[s])
+        before = snap(orig)
+        if which == "obtain":
+            pr.conn[True].sync_request(H_KEEP, orig)
+            got = pr.sink[False].pop()
+            cp = classic.obtain(got)
+            bad = [p for p, x in leaves(cp) if is_netref(x)]
+            if bad:
+                ctx.violation("obtain-not-independent:tuple-item-still-a-reference", case, observed="proxy at " + ", ".join(bad[:4]), expected="copies",
+                              what="obtain() of a tuple holding references returned a tuple that still holds live references")
+                return
+            if type(cp) is not tuple or snap(cp) != before:
+                ctx.violation("obtain-not-equal", case, observed=repr(snap(cp))[:160], expected=repr(before)[:160],
+                              what="obtain() of a tuple holding references did not produce an equal tuple")
+                return
+            for p, x in leaves(cp):
+                m = _first_mutable(x)
+                if m is not None:
+                    m(x)
+            if snap(orig) != before:
+                ctx.violation("obtain-not-independent", case, observed=repr(snap(orig))[:160], expected=repr(before)[:160],
+                              what="changing items of the obtained tuple changed the owner's objects")
+        else:
+            res = classic.deliver(pr.conn[True], orig)
+            if type(res) is not tuple or len(res) != len(orig):
+                ctx.violation("deliver-not-equal", case, observed=short(res), expected="a tuple of %d" % len(orig),
+                              what="deliver() of a tuple holding references did not return the delivered tuple")
+                return
+            for (p, x), (_, o) in zip(leaves(res), leaves(orig)):
+                if is_value(o):
+                    if is_netref(x) or snap(x) != snap(o):
+                        ctx.violation("deliver-not-equal", case, observed=short(x), expected=short(o), what="a plain item of the delivered tuple changed (at %s)" % p)
+                        return
+                    continue
+                if not is_netref(x):
+                    ctx.violation("deliver-not-a-reference", case, observed=short(x), expected="a proxy of the remote copy",
+                                  what="an item of the delivered tuple is not a reference to the copy at the other party (at %s)" % p)
+                    return
+                remote = pr.conn[False]._local_objects[object.__getattribute__(x, "____id_pack__")]
+                if remote is o or snap(remote) != snap(o):
+                    ctx.violation("deliver-not-independent" if remote is o else "deliver-not-equal", case, observed=repr(snap(remote))[:120],
+                                  expected=repr(snap(o))[:120], what="an item of the delivered tuple is not an equal, separate copy (at %s)" % p)
+                    return
+                m = _first_mutable(remote)
+                if m is not None:
+                    m(remote)
+            if snap(orig) != before:
+                ctx.violation("deliver-not-independent", case, observed=repr(snap(orig))[:160], expected=repr(before)[:160],
+                              what="changing the delivered copies changed the local objects")
+    except Exception as e:
+        ctx.violation("%s-fails:tuple:%s" % (which, type(e).__name__), case, observed=str(e)[:200], expected="an equal independent tuple",
+                      what="%s() raises for a tuple of picklable items" % which)
+    finally:
+        pr.close()
+
+
 def check_copy(ctx, which, idx, seed=None):
     if seed is None:
         kind, mk, mut = COPY_OBJECTS[idx]
@@ -1388,6 +1496,8 @@ def run(ctx):
             check_copy(ctx, which, idx)
         for i in range(40 if ctx.quick else 600):
             check_copy(ctx, which, None, seed=r.randrange(2**32))
+        for i in range(40 if ctx.quick else 600):
+            check_copy_tuple(ctx, which, r.randrange(2**32))
     for i in range(len(CHAIN_KINDS)):
         check_chain(ctx, i)
     for k, v in stats.items():
@@ -1411,6 +1521,8 @@ def replay(ctx, rep):
     Hist.idp_model = idp_model
     if case.get("kind") == "copy":
         check_copy(ctx, case["which"], case["idx"], seed=case.get("seed"))
+    elif case.get("kind") == "copy-tuple":
+        check_copy_tuple(ctx, case["which"], case["seed"])
     elif case.get("kind") == "chain":
         check_chain(ctx, case["idx"])
     elif case.get("kind") == "hist":
